@@ -3,6 +3,8 @@ package main
 import (
 	"encoding/json"
 	"fmt"
+	"go/ast"
+	"go/types"
 	"os"
 	"os/exec"
 	"path/filepath"
@@ -59,6 +61,76 @@ func loadFindings(path string) (*FindingsFile, error) {
 
 type LockFile struct {
 	Clauses map[string][]string `json:"clauses"` // property -> sorted "function/kind.label" keys
+	// Locals: per function under contract, its local variables (name, type) in order of first
+	// appearance on the tree the lock was taken from. A contract names locals; when a local
+	// has merely been renamed (same sequence of types, the old name gone) the old name in the
+	// contract is resolved to the new one instead of making the contract unusable.
+	Locals map[string][][2]string `json:"locals,omitempty"`
+}
+
+// localTable lists the named local variables of a function in order of first appearance.
+func localTable(fn *ssa.Function) [][2]string {
+	var out [][2]string
+	seen := map[string]bool{}
+	add := func(name string, t types.Type) {
+		if name == "" || name == "_" || seen[name] {
+			return
+		}
+		seen[name] = true
+		out = append(out, [2]string{name, typeKey(t)})
+	}
+	for _, b := range fn.Blocks {
+		for _, ins := range b.Instrs {
+			switch i := ins.(type) {
+			case *ssa.DebugRef:
+				if id, ok := i.Expr.(*ast.Ident); ok {
+					if o := i.Object(); o != nil && o.Pkg() != nil && o.Parent() == o.Pkg().Scope() {
+						continue
+					}
+					t := i.X.Type()
+					if i.IsAddr {
+						if pt, ok := t.Underlying().(*types.Pointer); ok {
+							t = pt.Elem()
+						}
+					}
+					add(id.Name, t)
+				}
+			}
+		}
+	}
+	return out
+}
+
+// inferRenames compares the locked local tables with the current code.
+func (en *Engine) inferRenames(lock *LockFile) {
+	en.renames = map[string]map[string]string{}
+	for key, locked := range lock.Locals {
+		fn := en.funcs[key]
+		if fn == nil || fn.Blocks == nil {
+			continue
+		}
+		cur := localTable(fn)
+		if len(cur) != len(locked) {
+			continue
+		}
+		names := map[string]bool{}
+		same := true
+		for i := range cur {
+			names[cur[i][0]] = true
+			same = same && cur[i][1] == locked[i][1]
+		}
+		if !same {
+			continue
+		}
+		for i := range cur {
+			if cur[i][0] != locked[i][0] && !names[locked[i][0]] {
+				if en.renames[key] == nil {
+					en.renames[key] = map[string]string{}
+				}
+				en.renames[key][locked[i][0]] = cur[i][0]
+			}
+		}
+	}
 }
 
 var ordinalRe = regexp.MustCompile(`(@return#\d+|/path#\d+|@pred\d+|@latch\d+|#\d+$)`)
@@ -224,6 +296,13 @@ func runCheck(opts checkOpts) (int, map[string]any) {
 	if err != nil {
 		return fail(err.Error())
 	}
+	{
+		early := &LockFile{}
+		if data, err := os.ReadFile(filepath.Join(opts.verif, "obligations.lock")); err == nil {
+			json.Unmarshal(data, early)
+		}
+		en.inferRenames(early)
+	}
 	ff, err := loadFindings(filepath.Join(opts.verif, "known_findings.json"))
 	if err != nil {
 		return fail("known_findings.json: " + err.Error())
@@ -290,9 +369,12 @@ func runCheck(opts checkOpts) (int, map[string]any) {
 	for _, k := range missing {
 		structural = append(structural, [2]string{k + "/exists", "the function under contract " + k + " is not in the source tree any more: its contract, which the argument for " + opts.prop + " relies on, cannot be established"})
 	}
+	// engine errors (code outside the subset, a contract that names something that is gone)
+	// make the run undecided - unless obligations fail anyway, which is then what is reported
+	pendingErr := ""
 	if len(engineErrs) > 0 {
 		sort.Strings(engineErrs)
-		return fail("code outside the supported subset or unusable contract: " + strings.Join(uniq(engineErrs), "; "))
+		pendingErr = "code outside the supported subset or unusable contract: " + strings.Join(uniq(engineErrs), "; ")
 	}
 	if len(all) == 0 && len(effAll) == 0 && len(structural) == 0 {
 		return fail("zero obligations generated")
@@ -321,6 +403,14 @@ func runCheck(opts checkOpts) (int, map[string]any) {
 		have[n] = true
 	}
 	if opts.writeLock {
+		if lock.Locals == nil {
+			lock.Locals = map[string][][2]string{}
+		}
+		for _, k := range keys {
+			if fn := en.funcs[k]; fn != nil && fn.Blocks != nil {
+				lock.Locals[k] = localTable(fn)
+			}
+		}
 		lock.Clauses[opts.prop] = sortedKeys(have)
 		data, _ := json.MarshalIndent(lock, "", " ")
 		os.WriteFile(lockPath, data, 0o644)
@@ -475,6 +565,19 @@ func runCheck(opts checkOpts) (int, map[string]any) {
 		if r.Status == "violation" {
 			vioFuncs[r.O.Func] = true
 		}
+	}
+	if violations == 0 && pendingErr == "" && len(structural) > 0 {
+		var names []string
+		for _, st := range structural {
+			names = append(names, st[0])
+		}
+		pendingErr = "functions or clauses under contract are gone from the source tree (renamed or removed?): " + strings.Join(names, ", ")
+	}
+	if violations == 0 && pendingErr != "" {
+		return fail(pendingErr)
+	}
+	if pendingErr != "" {
+		fmt.Println("NOTE: besides the violations below the run had engine errors:", truncate(pendingErr, 600))
 	}
 	for _, st := range structural {
 		violations++
